@@ -50,6 +50,8 @@ const LOCAL_REC: u8 = 77;
 const INBOUND_BASE: u64 = 100_000;
 const BOGUS_BASE: u64 = 50_000;
 const MAX_POOL: u64 = 10;
+/// provider refresh interval of the node under test (tokio time is paused and advanced by hand)
+const REFRESH_SECS: u64 = 1000;
 
 // ------------------------------------------------------------------ in-memory substream carrier
 
@@ -160,7 +162,9 @@ enum Res {
 /// Events of `select!` (everything except the served-query records `3 q`).
 #[derive(Clone, Debug, PartialEq)]
 enum Ev {
-    Cmd { q: u64, ctag: u64, qtag: u64, qn: u64, local: bool, dists: Vec<u64>, seeds: Vec<u64> },
+    /// `local`: get_record: a record is in the local store (0/1); provider refresh (ctag 5): 1 + the
+    /// label of the start_providing operation whose key is republished
+    Cmd { q: u64, ctag: u64, qtag: u64, qn: u64, local: u64, dists: Vec<u64>, seeds: Vec<u64> },
     PutToPeers { q: u64, qtag: u64, qn: u64, peers: Vec<u64> },
     Nop,
     Established(u64, bool),
@@ -218,7 +222,7 @@ impl Ev {
         let mut o = Vec::new();
         match self {
             Ev::Cmd { q, ctag, qtag, qn, local, dists, seeds } => {
-                o.extend([0, *q, *ctag, *qtag, *qn, *local as u64]);
+                o.extend([0, *q, *ctag, *qtag, *qn, *local]);
                 push_list(&mut o, dists);
                 push_list(&mut o, seeds);
             }
@@ -337,7 +341,7 @@ fn decode_case(c: &[u64]) -> Option<(Header, Vec<Ev>)> {
                 ctag: r.n()?,
                 qtag: r.n()?,
                 qn: r.n()?,
-                local: r.n()? != 0,
+                local: r.n()?,
                 dists: r.list()?,
                 seeds: r.list()?,
             },
@@ -441,11 +445,16 @@ struct Sys {
     sub_peer: HashMap<u64, u64>,
     /// substream id -> real query id of the action it was opened for
     fut_query: HashMap<u64, usize>,
+    /// seconds the paused clock has been advanced
+    now_s: u64,
+    /// start_providing operations: (label, refresh deadline, qtag, qn)
+    provided: Vec<(u64, u64, u64, u64)>,
     cap: u64,
     /// bounded channel: the loop is blocked in a handler on a full event channel
     parked: bool,
     recv_buf: Vec<KademliaEvent>,
     last_recv_none: bool,
+    probe_back: Vec<VerifProbeEntry>,
 }
 
 impl Sys {
@@ -467,7 +476,9 @@ impl Sys {
             ProtocolCodec::UnsignedVarint(Some(70 * 1024)),
             Duration::from_secs(3600 * 24),
         );
-        let builder = ConfigBuilder::new().with_replication_factor(h.k as usize);
+        let builder = ConfigBuilder::new()
+            .with_replication_factor(h.k as usize)
+            .with_provider_refresh_interval(Duration::from_secs(REFRESH_SECS));
         let (config, handle) = if h.cap == 0 { builder.build() } else { builder.verif_build_bounded(h.cap as usize) };
         let probe = VerifProbe::default();
         let kad = VerifKademlia::new(service, config, probe.clone());
@@ -495,10 +506,13 @@ impl Sys {
             inflight: BTreeMap::new(),
             sub_peer: HashMap::new(),
             fut_query: HashMap::new(),
+            now_s: 0,
+            provided: Vec::new(),
             cap: h.cap,
             parked: false,
             recv_buf: Vec::new(),
             last_recv_none: false,
+            probe_back: Vec::new(),
         };
         // routing table, then the manager's beliefs (add_known_peer goes through the manager too)
         for p in &h.known {
@@ -673,12 +687,14 @@ impl Sys {
     async fn apply(&mut self, e: &Ev, trace: &mut Vec<u64>) -> Vec<Vec<u64>> {
         let mut e = e.clone();
         let before_len = self.dump.executor_len;
+        #[allow(unused_assignments)]
         let mut real_q: Option<usize> = None;
         let mut touched: Option<u64> = None;
         // bounded channel: does this event make the loop run a handler?
         let mut expect = true;
         // select! iterations this event causes (get_record with a local record = store_record + get_record)
         let mut iterations = 1usize;
+        let mut refresh_label: Option<u64> = None;
         match &e {
             Ev::Cmd { q, ctag, qtag, qn, local, .. } => {
                 let quorum = Self::quorum(*qtag, *qn);
@@ -689,9 +705,26 @@ impl Sys {
                         .handle
                         .try_put_record(Record { key, value: vec![9], publisher: None, expires: None }, quorum)
                         .ok(),
-                    2 => self.handle.start_providing(key, quorum).now_or_never(),
+                    2 => {
+                        self.provided.push((*q, self.now_s + REFRESH_SECS, *qtag, *qn));
+                        self.handle.start_providing(key, quorum).now_or_never()
+                    }
+                    5 => {
+                        // the store's refresh timer of an earlier start_providing fires
+                        let now = self.now_s;
+                        if let Some(entry) = self.provided.iter_mut().find(|x| x.0 + 1 == *local) {
+                            let wait = entry.1.saturating_sub(now) + 1;
+                            entry.1 = now + wait + REFRESH_SECS;
+                            tokio::time::advance(Duration::from_secs(wait)).await;
+                            self.now_s += wait;
+                            refresh_label = Some(*q);
+                        } else {
+                            expect = false;
+                        }
+                        None
+                    }
                     3 => {
-                        if *local {
+                        if *local != 0 {
                             iterations = 2;
                             let _ = self.handle.try_store_record(Record {
                                 key: key.clone(),
@@ -826,6 +859,7 @@ impl Sys {
                             _ if write_stage => {
                                 if by_timeout {
                                     tokio::time::advance(Duration::from_secs(16)).await;
+                                    self.now_s += 16;
                                 } else {
                                     c.set(Some(2), None, false)
                                 }
@@ -837,6 +871,7 @@ impl Sys {
                                     c.set(w, None, false);
                                     self.poll();
                                     tokio::time::advance(Duration::from_secs(16)).await;
+                                    self.now_s += 16;
                                 } else {
                                     c.set(w, None, true)
                                 }
@@ -869,6 +904,24 @@ impl Sys {
             }
         }
         self.poll();
+        if let Some(label) = refresh_label {
+            // the internal query id drawn from the shared counter: the one the loop reports and the
+            // harness has not seen yet
+            let entries = self.probe.take();
+            let mut fresh: Vec<usize> = Vec::new();
+            for en in &entries {
+                match en {
+                    VerifProbeEntry::Action { query, .. } => fresh.push(*query),
+                    VerifProbeEntry::AtSelect(d) => fresh.extend(d.queries.iter().map(|x| x.query.0)),
+                }
+            }
+            fresh.retain(|r| !self.qmap.contains_key(r));
+            if let Some(r) = fresh.iter().min() {
+                self.qmap.insert(*r, label);
+                real_q = Some(*r);
+            }
+            self.probe_back = entries;
+        }
         self.collect(&mut e, real_q, before_len, touched, if expect { iterations } else { 0 }, trace)
     }
 
@@ -881,7 +934,8 @@ impl Sys {
         expect: usize,
         trace: &mut Vec<u64>,
     ) -> Vec<Vec<u64>> {
-        let entries = self.probe.take();
+        let mut entries = std::mem::take(&mut self.probe_back);
+        entries.extend(self.probe.take());
         let saw_select = matches!(entries.last(), Some(VerifProbeEntry::AtSelect(_)));
         let events = if self.cap == 0 { self.drain_events() } else { std::mem::take(&mut self.recv_buf) };
         if self.cap > 0 {
@@ -910,8 +964,8 @@ impl Sys {
         }
         // oracle fields
         match e {
-            Ev::Cmd { q, ctag, dists, seeds, .. } => {
-                *dists = self.dists(*q, *ctag);
+            Ev::Cmd { q, ctag, local, dists, seeds, .. } => {
+                *dists = if *ctag == 5 { self.dists(local.saturating_sub(1), 2) } else { self.dists(*q, *ctag) };
                 let mut s: Vec<u64> = Vec::new();
                 if let Some(r) = real_q {
                     if let Some(st) = self.dump.queries.iter().find(|x| x.query.0 == r) {
@@ -1334,6 +1388,7 @@ fn generate(seed: u64, tier_long: bool, cap: u64) -> Option<(Vec<u64>, Vec<u64>)
             }
         }
         let mut cmds = 0;
+        let mut refreshes = 0;
         for _ in 0..steps {
             let dials = s.owed_dials();
             let subs: Vec<(u64, u64)> = s.owed_subs().into_iter().filter(|(sid, _)| !g.answered.contains(sid)).collect();
@@ -1352,13 +1407,16 @@ fn generate(seed: u64, tier_long: bool, cap: u64) -> Option<(Vec<u64>, Vec<u64>)
             if !futs.is_empty() {
                 choices.extend([3, 3, 3, 3]);
             }
+            if s.provided.len() == 1 && futs.is_empty() && refreshes < 2 && !s.parked {
+                choices.push(5);
+            }
             choices.push(4);
             if cap > 0 && (s.parked || g.rng.chance(35)) {
                 events.extend(s.apply(&Ev::Recv, &mut trace).await);
                 continue;
             }
             let choice = g.rng.pick(&choices);
-            if cap > 0 && choice == 0 {
+            if cap > 0 && (choice == 0 || choice == 5) {
                 // a command is issued with an empty channel (its seeds are read from the snapshot)
                 for _ in 0..64 {
                     events.extend(s.apply(&Ev::Recv, &mut trace).await);
@@ -1379,7 +1437,7 @@ fn generate(seed: u64, tier_long: bool, cap: u64) -> Option<(Vec<u64>, Vec<u64>)
                         Ev::PutToPeers { q, qtag, qn, peers }
                     } else {
                         let ctag = g.rng.below(5);
-                        let local = ctag == 3 && g.rng.chance(30);
+                        let local = (ctag == 3 && g.rng.chance(30)) as u64;
                         Ev::Cmd { q, ctag, qtag, qn, local, dists: vec![], seeds: vec![] }
                     }
                 }
@@ -1410,6 +1468,13 @@ fn generate(seed: u64, tier_long: bool, cap: u64) -> Option<(Vec<u64>, Vec<u64>)
                     } else {
                         Ev::OpenFail(sid)
                     }
+                }
+                5 => {
+                    refreshes += 1;
+                    let (label, _, qtag, qn) = s.provided[0];
+                    let q = g.next_q;
+                    g.next_q += 1;
+                    Ev::Cmd { q, ctag: 5, qtag, qn, local: label + 1, dists: vec![], seeds: vec![] }
                 }
                 3 => {
                     let (id, kind) = g.rng.pick(&futs);
@@ -1515,7 +1580,7 @@ fn fut_query_tag(s: &Sys, id: u64) -> Option<u8> {
 // ------------------------------------------------------------------ witnesses of the repaired defects
 
 fn witnesses() -> Vec<(&'static str, Header, Vec<Ev>)> {
-    let cmd = |q, ctag, qtag| Ev::Cmd { q, ctag, qtag, qn: 1, local: false, dists: vec![], seeds: vec![] };
+    let cmd = |q, ctag, qtag| Ev::Cmd { q, ctag, qtag, qn: 1, local: 0, dists: vec![], seeds: vec![] };
     vec![
         (
             // F-C16a: put_record_to_peers to a peer that cannot be dialed (no usable address)
@@ -1571,6 +1636,49 @@ fn witnesses() -> Vec<(&'static str, Header, Vec<Ev>)> {
             "f_c16d_open_failure_after_dial",
             Header { k: 20, mgr: vec![(0, 1)], known: vec![0], cap: 0 },
             vec![cmd(0, 0, 0), Ev::Established(0, true), Ev::OpenFail(0)],
+        ),
+        (
+            // the connection closes while the request is outstanding: the future fails, the query ends
+            "closed_while_request_outstanding",
+            Header { k: 20, mgr: vec![(0, 2)], known: vec![0], cap: 0 },
+            vec![
+                Ev::Established(0, true),
+                cmd(0, 0, 0),
+                Ev::Opened(0, 0),
+                Ev::Closed(0),
+                Ev::Fut { id: 0, res: Res::ReadFail, how: 0 },
+            ],
+        ),
+        (
+            // the store republishes a local provider: an ADD_PROVIDER operation nobody asked for, with an
+            // id from the shared counter, ends with exactly one terminal event
+            "provider_refresh",
+            Header { k: 20, mgr: vec![(0, 2)], known: vec![0], cap: 0 },
+            vec![
+                Ev::Established(0, true),
+                cmd(0, 2, 1),
+                Ev::Opened(0, 0),
+                Ev::Fut { id: 0, res: Res::Read(Msg::FindNode(vec![])), how: 0 },
+                Ev::Opened(0, 1),
+                Ev::Fut { id: 1, res: Res::SendOk, how: 0 },
+                Ev::Cmd { q: 1, ctag: 5, qtag: 1, qn: 1, local: 1, dists: vec![], seeds: vec![] },
+                Ev::Opened(0, 2),
+                Ev::Fut { id: 2, res: Res::Read(Msg::FindNode(vec![])), how: 0 },
+                Ev::Opened(0, 3),
+                Ev::Fut { id: 3, res: Res::SendOk, how: 0 },
+            ],
+        ),
+        (
+            // an event channel of one slot: get_record with a local record reports two events, the
+            // loop parks on the second until the user receives
+            "bounded_channel_parks",
+            Header { k: 20, mgr: vec![(0, 2)], known: vec![0], cap: 1 },
+            vec![
+                Ev::Cmd { q: 0, ctag: 3, qtag: 1, qn: 1, local: 1, dists: vec![], seeds: vec![] },
+                Ev::Recv,
+                Ev::Recv,
+                Ev::Recv,
+            ],
         ),
         (
             // a silent peer: the 15 s executor timeout ends the wait
